@@ -1,0 +1,173 @@
+//! Verification hooks (cargo feature `verif`): access to the compiler's output and
+//! to the peephole optimiser for the verification harness.
+use crate::vm::Vm;
+use laythe_core::{object::ObjectKind, signature::Arity, value::Value, verif as core_verif};
+use laythe_env::io::Io;
+use std::cell::RefCell;
+use std::fmt::Write;
+
+pub use crate::byte_code::{CaptureIndex, Label, SymbolicByteCode};
+
+/// One function as it went through the back end
+#[derive(Clone, Debug)]
+pub struct PeepholeRecord {
+  pub name: String,
+  pub before: Vec<SymbolicByteCode>,
+  pub before_lines: Vec<u16>,
+  pub after: Vec<SymbolicByteCode>,
+  pub after_lines: Vec<u16>,
+  pub max_slots: i32,
+}
+
+thread_local! {
+  static PEEPHOLE_LOG: RefCell<Option<Vec<PeepholeRecord>>> = const { RefCell::new(None) };
+}
+
+/// Start recording every function handed to the peephole optimiser
+pub fn peephole_log_start() {
+  PEEPHOLE_LOG.with(|l| *l.borrow_mut() = Some(Vec::new()));
+}
+
+/// Stop recording and return what was recorded
+pub fn peephole_log_take() -> Vec<PeepholeRecord> {
+  PEEPHOLE_LOG.with(|l| l.borrow_mut().take().unwrap_or_default())
+}
+
+pub(crate) fn peephole_log_wanted() -> bool {
+  PEEPHOLE_LOG.with(|l| l.borrow().is_some())
+}
+
+pub(crate) fn peephole_log_push(record: PeepholeRecord) {
+  PEEPHOLE_LOG.with(|l| {
+    if let Some(log) = l.borrow_mut().as_mut() {
+      log.push(record)
+    }
+  })
+}
+
+/// Run the real peephole optimiser over a window
+pub fn peephole(code: Vec<SymbolicByteCode>, lines: Vec<u16>) -> (Vec<SymbolicByteCode>, Vec<u16>) {
+  crate::compiler::verif_peephole_optimize(code, lines)
+}
+
+/// Run the real stack effect pass over optimised code. Returns the code with the
+/// handler depths filled in and the computed max slots
+pub fn stack_effects(code: Vec<SymbolicByteCode>) -> (Vec<SymbolicByteCode>, i32) {
+  crate::compiler::verif_apply_stack_effects(code)
+}
+
+/// The compiler's own notion of the encoded length and stack effect of an instruction
+pub fn len_and_effect(code: &SymbolicByteCode) -> (usize, i32) {
+  (code.len(), code.stack_effect())
+}
+
+fn arity_json(arity: Arity) -> String {
+  match arity {
+    Arity::Fixed(n) => format!("{{\"k\":\"fixed\",\"min\":{n},\"max\":{n}}}"),
+    Arity::Variadic(n) => format!("{{\"k\":\"variadic\",\"min\":{n},\"max\":255}}"),
+    Arity::Default(a, b) => format!("{{\"k\":\"default\",\"min\":{a},\"max\":{b}}}"),
+  }
+}
+
+fn const_json(value: Value, funs: &mut Vec<Value>) -> String {
+  if value.is_num() {
+    let n = value.to_num();
+    if n.is_finite() {
+      return format!("{{\"k\":\"num\",\"v\":{n}}}");
+    }
+    return format!("{{\"k\":\"num\",\"s\":\"{n}\"}}");
+  }
+  if value.is_nil() {
+    return "{\"k\":\"nil\"}".to_string();
+  }
+  if value.is_bool() {
+    return format!("{{\"k\":\"bool\",\"v\":{}}}", value.to_bool());
+  }
+  if value.is_obj() {
+    let obj = value.to_obj();
+    return match obj.kind() {
+      ObjectKind::String => format!(
+        "{{\"k\":\"str\",\"v\":{}}}",
+        core_verif::json_str(&obj.to_str())
+      ),
+      ObjectKind::Fun => {
+        funs.push(value);
+        let fun = obj.to_fun();
+        format!(
+          "{{\"k\":\"fun\",\"name\":{},\"captures\":{}}}",
+          core_verif::json_str(&fun.name()),
+          fun.capture_count()
+        )
+      },
+      ObjectKind::List => format!("{{\"k\":\"list\",\"len\":{}}}", obj.to_list().len()),
+      kind => format!("{{\"k\":\"obj\",\"kind\":\"{kind:?}\"}}"),
+    };
+  }
+  "{\"k\":\"other\"}".to_string()
+}
+
+fn fun_json(fun_value: Value, out: &mut Vec<String>) {
+  let fun = fun_value.to_obj().to_fun();
+  let chunk = fun.chunk();
+  let mut nested = Vec::new();
+  let mut s = String::new();
+  let _ = write!(
+    s,
+    "{{\"name\":{},\"arity\":{},\"max_slots\":{},\"captures\":{},\"module_id\":{},\"code\":[",
+    core_verif::json_str(&fun.name()),
+    arity_json(fun.verif_arity()),
+    fun.max_slots(),
+    fun.capture_count(),
+    fun.module_id()
+  );
+  for (i, b) in chunk.instructions().iter().enumerate() {
+    if i > 0 {
+      s.push(',');
+    }
+    let _ = write!(s, "{b}");
+  }
+  s.push_str("],\"lines\":[");
+  for i in 0..chunk.instructions().len() {
+    if i > 0 {
+      s.push(',');
+    }
+    let _ = write!(s, "{}", chunk.get_line(i));
+  }
+  s.push_str("],\"consts\":[");
+  let mut i = 0;
+  while i < chunk.verif_constant_count() {
+    if i > 0 {
+      s.push(',');
+    }
+    s.push_str(&const_json(chunk.get_constant(i), &mut nested));
+    i += 1;
+  }
+  s.push_str("]}");
+  out.push(s);
+  for n in nested {
+    fun_json(n, out);
+  }
+}
+
+/// Compile a piece of source and describe every function the compiler emitted as json.
+/// On rejection the number of diagnostics is returned
+pub fn compile_dump(source: &str, repl: bool) -> Result<String, usize> {
+  let mut vm = Vm::new(Io::default());
+  match vm.verif_compile(source, repl) {
+    Ok((fun, props, invokes)) => {
+      let mut funs = Vec::new();
+      fun_json(fun, &mut funs);
+      Ok(format!(
+        "{{\"property_slots\":{props},\"invoke_slots\":{invokes},\"funs\":[{}]}}",
+        funs.join(",")
+      ))
+    },
+    Err(count) => Err(count),
+  }
+}
+
+/// Describe every native function reachable from the global module
+pub fn natives_dump() -> String {
+  let vm = Vm::new(Io::default());
+  vm.verif_natives_dump()
+}
